@@ -34,6 +34,7 @@ type Out struct {
 	ops     *bufio.Writer
 	impl    *bufio.Writer
 	laws    *bufio.Writer
+	ctx     *bufio.Writer
 	files   []*os.File
 	n       int
 	extra   int // executions that have no op line (law-only checks on the implementation)
@@ -72,6 +73,21 @@ func (o *Out) Case(op string, impl string) int {
 	return o.n - 1
 }
 
+// Context attaches a free text (the program, the table, …) to the NEXT operation line; the orchestrator copies it
+// into the replay when that line disagrees with the model.
+func (o *Out) Context(text string) {
+	if o.ctx == nil {
+		f, err := os.Create(filepath.Join(o.dir, "ctx.txt"))
+		if err != nil {
+			return
+		}
+		o.files = append(o.files, f)
+		o.ctx = bufio.NewWriterSize(f, 1<<16)
+	}
+	b, _ := json.Marshal(text)
+	fmt.Fprintf(o.ctx, "%d\t%s\n", o.n, string(b))
+}
+
 // Law records a law that failed on the implementation's own outputs.
 func (o *Out) Law(name string, replay interface{}) {
 	b, _ := json.Marshal(map[string]interface{}{"law": name, "case": replay})
@@ -91,6 +107,9 @@ func (o *Out) Close() {
 	o.ops.Flush()
 	o.impl.Flush()
 	o.laws.Flush()
+	if o.ctx != nil {
+		o.ctx.Flush()
+	}
 	for _, f := range o.files {
 		f.Close()
 	}
